@@ -1,4 +1,4 @@
-import Verif.Proofs.NumRoundP
+import Verif.Proofs.NumRoundLen
 /-!
 # C08 — Number/Decimal shortening keeps the numeric value
 
@@ -7,11 +7,39 @@ Property theorems only.  Models: `Verif.Model.Num.number`, `Verif.Model.Num.deci
 -/
 namespace Verif.Props.C08
 open Verif.Model.Num Verif.Proofs.Num
-open Verif.Spec.Num (isNumber isDecimal numVal)
+open Verif.Spec.Num (isNumber isDecimal numVal trigExpNear)
 
 /-- (a) at precision ≤ 0 the result of `Number` is never longer than its input — for every byte string -/
 theorem number_length_exact (s : List Char) (p : Int) (hp : p ≤ 0) : (number s p).length ≤ s.length :=
-  number_length_gen s p (fun m0 => by rw [rnd_nonpos hp]; exact Nat.le_refl _)
+  number_length_gen s p (fun m0 _ _ => by rw [rnd_nonpos hp]; exact Nat.le_refl _)
+
+/-- (a), full statement: `Number` never lengthens its input.  Proved below for precision ≤ 0 (every byte
+    string) and for every precision on lexemes outside the trigger of the known findings K-C08-1/2. -/
+def number_length_full : Prop := ∀ (s : List Char) (p : Int), (number s p).length ≤ s.length
+
+/-- (a) for every precision: a lexeme of the grammar whose exponent stays clear of the int64 range
+    (`¬ trigExpNear`, the guard of the known findings K-C08-1/2) is never lengthened -/
+theorem number_length_partial (s : List Char) (p : Int) (hs : isNumber s = true)
+    (hg : trigExpNear s p = false) : (number s p).length ≤ s.length := by
+  by_cases hp : p ≤ 0
+  · exact number_length_exact s p hp
+  · obtain ⟨l, hwf, rfl⟩ := exists_lex_of_isNumber hs
+    have hparse := parse_str l hwf
+    unfold trigExpNear at hg
+    rw [hparse] at hg
+    have hpp : decide (0 < p) = true := by simp; omega
+    simp only [hpp, Bool.true_and, decide_eq_false_iff_not] at hg
+    apply number_length_gen
+    intro m0 hme hml
+    rcases modelExp_str l hwf with h | h
+    · rw [h] at hme; cases hme
+    · rw [h] at hme
+      injection hme with hme
+      unfold rnd
+      rw [if_pos (by omega)]
+      exact roundP_len m0 p.toNat (by omega) (by rw [← hme]; omega)
+
+example : isNumber "123456.7e+25".toList = true ∧ trigExpNear "123456.7e+25".toList 2 = false := by decide
 
 /-- (b) at precision ≤ 0 `Number` returns a lexeme that denotes exactly the same rational -/
 theorem number_value (s : List Char) (p : Int) (hs : isNumber s = true) (hp : p ≤ 0) :
